@@ -223,6 +223,7 @@ class Backend(object):
         self.salt = int(salt or 0)
         self.keep_sets = keep_sets
         self.records = []
+        self.last = None
         self.hook = hook         # hook(backend, lp, record) -> None, called after each solve
         self._orig = None
 
@@ -274,6 +275,7 @@ class Backend(object):
             raise PulpSolverError('Pulp: Error while executing (duplicated variable names %r)'
                                   % sorted(n for n in set(names) if names.count(n) > 1))
         vs, nproj, res, sign = solve_all(lp)
+        self.last = (vs, res)
         rec.pairs = [_pair(v.name) for v in vs[:nproj]]
         rec.nF = len(res)
         if not res:
